@@ -32,10 +32,13 @@ CallP(f, args, kw) == [t |-> "call", f |-> f, args |-> args, kw |-> kw]
 IdxP(a, i)         == [t |-> "idx", a |-> a, i |-> i]
 AttrP(a, name)     == [t |-> "attr", a |-> a, name |-> name]
 AttraP(a, name)    == [t |-> "attra", a |-> a, name |-> name]
+\* augmented assignment:   a = l;  b = a;  a op= r;   the program's result is a (obs "target")
+\* or b (obs "alias": the other name still bound to the object that l built)
+AugP(op, l, r, obs) == [t |-> "aug", op |-> op, l |-> l, r |-> r, obs |-> obs]
 
 PKids(p) ==
     CASE p.t = "leaf" -> << >>
-      [] p.t \in {"bin", "cmp", "log", "ord"} -> << p.l, p.r >>
+      [] p.t \in {"bin", "cmp", "log", "ord", "aug"} -> << p.l, p.r >>
       [] p.t = "un" -> << p.a >>
       [] p.t = "call" -> << p.f >> \o p.args \o [i \in 1..Len(p.kw) |-> p.kw[i].e]
       [] p.t = "idx" -> << p.a, p.i >>
@@ -52,6 +55,10 @@ RECURSIVE Plain(_, _)
 Plain(p, env) ==
     CASE p.t = "leaf" -> Eval(p.e, env)
       [] p.t = "bin" -> PyBin(p.op, Plain(p.l, env), Plain(p.r, env))
+      \* values do not change under the names bound to them: after  a op= r  the name a means
+      \* l op r, and every other name of l's object still means l
+      [] p.t = "aug" -> LET lv == Plain(p.l, env) bv == PyBin(p.op, lv, Plain(p.r, env)) IN
+                        IF p.obs = "target" \/ IsErr(bv) \/ IsUnrep(bv) THEN bv ELSE lv
       [] p.t = "un" -> PyUn(IF p.op = "not_" THEN "not" ELSE p.op, Plain(p.a, env))
       [] p.t = "cmp" -> PyCompare(p.op, Plain(p.l, env), Plain(p.r, env))
       \* the plain computation is Python's own "a or b" / "a and b": the right operand is not
@@ -265,6 +272,9 @@ Build(p) ==
     CASE p.t = "leaf" -> p.e
       [] p.t = "bin" -> LET l == Build(p.l) r == Build(p.r) IN
                         FirstRaise(<< l, r >>, BuildBin(p.op, l, r))
+      \* no in-place operator methods: op= falls back to the binary operator and rebinds
+      [] p.t = "aug" -> LET l == Build(p.l) r == Build(p.r) b == BuildBin(p.op, l, r) IN
+                        FirstRaise(<< l, r >>, IF p.obs = "target" \/ IsRaise(b) THEN b ELSE l)
       [] p.t = "un" -> LET a == Build(p.a) IN
             IF IsRaise(a) THEN a
             ELSE IF IsC(a) THEN
